@@ -1,4 +1,4 @@
-//@unit U6 props=C01,C02,C08,C09,C15 SendChannelReliable bookkeeping (renet/src/channel/reliable.rs)
+//@unit U6 props=C01,C02,C03,C08,C09,C15 SendChannelReliable bookkeeping (renet/src/channel/reliable.rs)
 #![feature(allocator_api)]
 #![allow(unused_imports, dead_code, unused_variables, unused_mut)]
 use vstd::prelude::*;
